@@ -247,17 +247,32 @@ var kgoApis = []kgoApi{
 var kgoRecordSetType = reflect.TypeOf(kgoproto.RecordSet{})
 
 type kgoGen struct {
-	r    *Rand
-	ver  int
-	v2   bool
-	big  bool // thorough tier: longer strings / more elements
+	r   *Rand
+	ver int
+	v2  bool
+	big bool // thorough tier: longer strings / more elements
 	// clean: stay inside what the dissector's layouts can express (one partition per Produce
 	// topic, record batches rather than message sets, no flexible version)
 	clean bool
+	// forced: the next strings / element counts to hand out (for conversations built on purpose)
+	forced      []string
+	forcedCount int
 }
+
+// names a query literal has to carry unharmed: backslashes at the end, macro names standing alone
+var kgoAwkwardNames = []string{"archive\\\\", "dir\\\\sub", "kafka-events", "http-logs", "redis", "amqp dns", "x.http", "a\\\\", "gql kafka",
+	"tail\\\\\\\\", "it's", "`tmp`"}
 
 func (g *kgoGen) str(nonEmpty bool) string {
 	r := g.r
+	if len(g.forced) > 0 {
+		s := g.forced[0]
+		g.forced = g.forced[1:]
+		return s
+	}
+	if g.clean && r.Chance(12) {
+		return kgoAwkwardNames[r.Intn(len(kgoAwkwardNames))]
+	}
 	var n int
 	switch r.Intn(10) {
 	case 0:
@@ -293,6 +308,11 @@ func (g *kgoGen) str(nonEmpty bool) string {
 }
 
 func (g *kgoGen) count() int {
+	if g.forcedCount > 0 {
+		n := g.forcedCount
+		g.forcedCount = 0
+		return n
+	}
 	switch g.r.Intn(8) {
 	case 0:
 		return 0
@@ -726,6 +746,21 @@ func genKafkaStages(r *Rand, tier string, emit func(sx.Sx)) {
 				corr++
 				emit(kafkaConv(g, []kafkaExchange{g.exchange(a, v, corr)}))
 			}
+		}
+	}
+	// several names in one request, so that the summary query holds several literals: an earlier name ending in
+	// backslashes, a later one holding a macro name that stands alone
+	for _, a := range kgoApis {
+		for _, pair := range [][2]string{{"archive\\\\", "kafka-events"}, {"a\\", "http-logs"}, {"tail\\\\\\\\", "redis"}, {"kafka-events", "archive\\\\"}, {"say \\\"", "amqp x"}} {
+			v := a.min + r.Intn(a.max-a.min+1)
+			if (a.recordsV2From >= 0 && v < a.recordsV2From) || (a.key == 19 && v >= 5) {
+				continue
+			}
+			corr++
+			g.forced, g.forcedCount = []string{pair[0], pair[1], pair[0], pair[1]}, 2
+			e := g.exchange(a, v, corr)
+			g.forced, g.forcedCount = nil, 0
+			emit(kafkaConv(g, []kafkaExchange{e}))
 		}
 	}
 	// every (api, version) the dissector has a layout for, written along that layout
